@@ -287,3 +287,32 @@ Proof.
     - intros [w1 z1] [w2 z2] [_ Hz]. cbn [fst snd ceq] in *. exact Hz. }
   intros m1 m2 Hm. cbn [ceq fst snd]. split; [exact Hm|reflexivity].
 Qed.
+
+(* ------------------------------------------------------------------ knut print *)
+From Knut Require Import Model.JPrinter Proofs.StrProofs.
+
+Lemma sort_days_equiv l1 l2 : Forall2 day_equiv l1 l2 -> Forall2 day_equiv (sort_days l1) (sort_days l2).
+Proof.
+  unfold sort_days. induction 1 as [|x y l1 l2 Hxy Hl IH]; cbn [map]; constructor; [|exact IH].
+  apply set_txns_equiv; [exact Hxy|].
+  eapply Permutation_trans; [apply sort_by_perm|].
+  eapply Permutation_trans; [apply Hxy|]. apply Permutation_sym. apply sort_by_perm.
+Qed.
+
+(* both fail, or both print: the texts are journal.Print of day lists that agree in their dates
+   and, per day and kind, in the multiset of directives -- before and after journal.Print has
+   sorted each day's transactions *)
+Definition print_equiv (o1 o2 : str) : Prop :=
+  exists days1 days2,
+    o1 = print_journal days1 /\ o2 = print_journal days2 /\
+    Forall2 day_equiv days1 days2 /\ Forall2 day_equiv (sort_days days1) (sort_days days2).
+
+Theorem print_cmd_perm l sds1 sds2 :
+  Permutation sds1 sds2 -> sd_syntactic sds1 -> ceq print_equiv (print_cmd l sds1) (print_cmd l sds2).
+Proof.
+  intros P Hs. unfold print_cmd. eapply ceq_bind; [apply load_perm; eassumption|].
+  intros b1 b2 (HF & _ & _). eapply ceq_bind; [apply check_stage_current; exact HF|].
+  intros _ _ _. cbn [ceq]. exists (b_days b1), (b_days b2).
+  destruct (Forall2_DIok_split _ _ HF) as [A _].
+  split; [reflexivity|]. split; [reflexivity|]. split; [exact A|apply sort_days_equiv; exact A].
+Qed.
